@@ -40,7 +40,7 @@ checks = {
    note="alphabets chosen per branch of the codec; RFC-silent inputs only safety-checked",
    technique="bounded-exhaustive enumeration of inputs and of environment answers (buffer chunkings) on the real code vs reference codec"),
  "C18": dict(level=MC, design="DESIGN.md §4 C18",
-   text="legality: 6 capability configurations x enablement x 13 commands x a 19-string alphabet in every string position (+ all pairs) and APPEND sizes around 4096, bytes written by the real client judged by an independent scanner ({n+} only when advertised, no CR/LF/NUL in quotes, 8-bit in quotes only with IMAP4rev2 or enabled UTF8=ACCEPT, literal sizes match); synchronisation: 16 scenarios with synchronising literals granted or refused by the server, every schedule of server vs client threads within delay bound 2 (3) / preemption bound 1 (2), write hooks on the connection flag any byte written while a continuation is awaited and any refused payload",
+   text="legality: 6 capability configurations x enablement x 13 commands x a 21-string alphabet in every string position (+ all pairs) and APPEND sizes around 4096, bytes written by the real client judged by an independent scanner ({n+} only when advertised, no CR/LF/NUL in quotes, 8-bit in quotes only with IMAP4rev2 or enabled UTF8=ACCEPT, literal sizes match); synchronisation: 16 scenarios with synchronising literals granted or refused by the server, every schedule of server vs client threads within delay bound 2 (3) / preemption bound 1 (2), write hooks on the connection flag any byte written while a continuation is awaited and any refused payload",
    note="scripted peer; legality judged against advertised/enabled capabilities; CHARSET not judged",
    technique="bounded-exhaustive input x configuration enumeration + stateless model checking (bounded schedule exploration) of the real client under a controlled scheduler"),
  "C19": dict(level=EX, design="DESIGN.md §4 C19",
